@@ -797,12 +797,24 @@ class ProcProxy:
                 stdin = io.TextIOWrapper(inbuf, encoding=enc, errors=err)
             if isinstance(self.stdin, int):
                 owned_handles.append(stdin)
-        stdout = self._pick_buf(self.stdout, sys.stdout, enc, err)
-        if stdout is not self.stdout and stdout is not sys.stdout:
-            owned_handles.append(stdout)
-        stderr = self._pick_buf(self.stderr, sys.stderr, enc, err)
-        if stderr is not self.stderr and stderr is not sys.stderr:
-            owned_handles.append(stderr)
+        # ``o>e`` leaves the int flag 2 in the stdout slot and ``e>o`` leaves
+        # subprocess.STDOUT in the stderr slot: such a stream follows the
+        # other one instead of being opened on its own.
+        out_to_err = isinstance(self.stdout, int) and self.stdout == 2
+        err_to_out = isinstance(self.stderr, int) and self.stderr == subprocess.STDOUT
+        stdout = stderr = None
+        if not out_to_err:
+            stdout = self._pick_buf(self.stdout, sys.stdout, enc, err)
+            if stdout is not self.stdout and stdout is not sys.stdout:
+                owned_handles.append(stdout)
+        if not err_to_out:
+            stderr = self._pick_buf(self.stderr, sys.stderr, enc, err)
+            if stderr is not self.stderr and stderr is not sys.stderr:
+                owned_handles.append(stderr)
+        if stdout is None:
+            stdout = stderr if stderr is not None else sys.stderr
+        if stderr is None:
+            stderr = stdout
         # run the actual function
         try:
             alias_env = {}
